@@ -55,8 +55,11 @@ def tasks(tier):
 _OPT = [None]
 
 
+_FMT = ["list"]
+
+
 def _call(acc, algo, items, k, kw=None):
-    case = {"algo": algo, "items": list(items), "k": k, "kw": kw or {}, "opt": _OPT[0]}
+    case = {"algo": algo, "items": list(items), "k": k, "kw": kw or {}, "opt": _OPT[0], "fmt": _FMT[0]}
     obs = repo.call(case)
     acc.ran(algo)
     if obs[0] == "exc" or obs[1] is None:
@@ -111,6 +114,13 @@ def run_task(task):
                 o = O.opt_partition(tuple(ms), k)
                 g = _judge(acc, ms, k, o["largest"], o["smallest"])
                 acc.point(nontrivial=(g is not None and g != o["largest"]))
+                if len(ms) <= 5:      # the guarantees are about values: identifiers + value function, names in a dict
+                    for f in ("array_names", "dict_str"):
+                        _FMT[0] = f
+                        try:
+                            _judge(acc, ms, k, o["largest"], o["smallest"])
+                        finally:
+                            _FMT[0] = "list"
         elif scope == "planted":
             k = ks[0]
             g = _judge(acc, ms, k, T, T)
@@ -132,4 +142,8 @@ def run_task(task):
 
 def replay(case, acc):
     items, k = case["items"], case["k"]
-    _judge(acc, items, k, case["opt"][0], case["opt"][1])
+    _FMT[0] = case.get("fmt", "list")
+    try:
+        _judge(acc, items, k, case["opt"][0], case["opt"][1])
+    finally:
+        _FMT[0] = "list"
